@@ -1,7 +1,10 @@
-From Verif Require Import Common Json JsonText C12_Model C12_Spec.
+From Verif Require Import Common Json JsonText C12_Model C12_Spec C12_ConcModel C12_ConcSpec.
 Open Scope N_scope.
 
-Definition case := (input * observation)%type.
+(* two case classes: one execution driven through the operator (input, observation), and many
+   executions of Hook.Run at the same time (C12_ConcModel / C12_ConcSpec) *)
+Definition run_case := (input * observation)%type.
+Inductive case := CRun (c : run_case) | CConc (ci : cinput) (o : cobs).
 
 (* the model's outcome in the observation's vocabulary; the OS facts are taken from the
    implementation's observation (they are not modelled), and so is the presence of the probe
@@ -33,7 +36,7 @@ Fixpoint views_agree (ms os : list (list (N * option eval))) : bool :=
   | _, _ => false
   end.
 
-Definition model_obs (c : case) : observation :=
+Definition model_run_obs (c : run_case) : observation :=
   let (i, o) := c in
   let m := exec i in
   mkOb (o_started m) (ob_cwd_is_hook_dir o) (ob_env_ok o) (ob_context_matches o) (ob_files_empty o)
@@ -47,9 +50,9 @@ Definition model_obs (c : case) : observation :=
 
 (* a not-started execution is retried without end in the harness (zero back-off); leaked
    files are compared as zero / non-zero only *)
-Definition agrees (c : case) : bool :=
+Definition agrees_run (c : run_case) : bool :=
   let (i, o) := c in
-  let m := model_obs c in
+  let m := model_run_obs c in
   Bool.eqb (ob_started m) (ob_started o)
   && N.eqb (ob_status m) (ob_status o)
   && (if ob_started o then N.eqb (ob_tmp_after m) (ob_tmp_after o)
@@ -61,5 +64,52 @@ Definition agrees (c : case) : bool :=
   && Bool.eqb (ob_foreign_touched m) (ob_foreign_touched o)
   && negb (ob_bad o).
 
+(* ------------------------------------------------------------------ the concurrent class *)
+
+(* The model's observation of execution number e of a case, in closed form.  That it IS what the
+   transition system of C12_ConcModel yields for execution e under EVERY complete schedule is
+   C12_conc_obs_schedule_independent (C12_ConcProofs.lts_agrees_closed). *)
+Definition model_exec (e : N) (t : ctask) : cexec :=
+  mkCE true true true true [5 * e; 5 * e + 1; 5 * e + 2; 5 * e + 3; 5 * e + 4] true
+       (mkSeen true (ct_segs t) true None)
+       (if ct_fail t then 1 else 0) (negb (ct_fail t)).
+Fixpoint mapi_from {A B} (k : N) (f : N -> A -> B) (l : list A) : list B :=
+  match l with [] => [] | x :: r => f k x :: mapi_from (k + 1) f r end.
+Definition model_conc_obs (ci : cinput) : cobs :=
+  mkCO (mapi_from 0 model_exec (ci_tasks ci)) 0 (held_expected ci) false.
+
+Definition seen_agrees (m o : cseen) : bool :=
+  Bool.eqb (sn_json m) (sn_json o)
+  && same_contexts (sn_segs m) (sn_segs o)
+  && Bool.eqb (sn_canonical m) (sn_canonical o).
+(* where the harness hands over the bytes the hook process read (small files, a few per case), they
+   are the model's rendering of the task's document *)
+Definition raw_agrees (t : ctask) (o : cexec) : bool :=
+  match sn_raw (ce_seen o) with
+  | Some r => bytes_eqb r (render_doc (task_doc t))
+  | None => true
+  end.
+Definition exec_agrees (m o : cexec) : bool :=
+  Bool.eqb (ce_identified m) (ce_identified o) && Bool.eqb (ce_hook_ok m) (ce_hook_ok o)
+  && Bool.eqb (ce_cwd_ok m) (ce_cwd_ok o) && Bool.eqb (ce_env_ok m) (ce_env_ok o)
+  && list_eqb N.eqb (ce_paths m) (ce_paths o) && Bool.eqb (ce_files_empty m) (ce_files_empty o)
+  && seen_agrees (ce_seen m) (ce_seen o)
+  && (ce_status m =? ce_status o) && Bool.eqb (ce_patch_back m) (ce_patch_back o).
+Definition agrees_conc (ci : cinput) (o : cobs) : bool :=
+  let m := model_conc_obs ci in
+  forallb2 exec_agrees (co_execs m) (co_execs o)
+  && forallb2 raw_agrees (ci_tasks ci) (co_execs o)
+  && (co_tmp_after m =? co_tmp_after o)
+  && list_eqb N.eqb (co_held m) (co_held o)
+  && negb (co_bad o).
+
+Inductive mobs := MRun (o : observation) | MConc (o : cobs).
+Definition model_obs (c : case) : mobs :=
+  match c with CRun c => MRun (model_run_obs c) | CConc ci _ => MConc (model_conc_obs ci) end.
+Definition agrees (c : case) : bool :=
+  match c with CRun c => agrees_run c | CConc ci o => agrees_conc ci o end.
+Definition holds (c : case) : bool :=
+  match c with CRun c => P (fst c) (snd c) | CConc ci o => P_conc ci o end.
+
 Definition mismatches (cs : list case) : list N := indices_where (fun c => negb (agrees c)) cs.
-Definition spec_violations (cs : list case) : list N := indices_where (fun c => negb (P (fst c) (snd c))) cs.
+Definition spec_violations (cs : list case) : list N := indices_where (fun c => negb (holds c)) cs.
